@@ -312,3 +312,30 @@ Proof.
     + rewrite Houts. apply missing_nil. exact Hall.
     + discriminate.
 Qed.
+
+(* ------------------------------------------------------------------ scans keep the table well-formed *)
+Lemma fold_unspend_wf : forall acc w, WF w -> WF (fold_left unspend acc w).
+Proof.
+  induction acc as [|a r IH]; intros w Hw; cbn [fold_left]; [exact Hw|].
+  apply IH. unfold WF. rewrite unspend_outs. now apply nodup_save.
+Qed.
+
+Lemma fold_restore_wf : forall ms w, WF w -> WF (fold_left restore_missing ms w).
+Proof. intros ms w Hw. unfold WF. apply fold_restore_nodup. exact Hw. Qed.
+
+Lemma cancel_entry_outs w o : w_outs (cancel_entry_of w o) = w_outs w.
+Proof. unfold cancel_entry_of. destruct (r_tx o); [|reflexivity]. destruct (find _ _); reflexivity. Qed.
+
+Theorem scan_repair_wf w chain del : WF w -> WF (scan_repair w chain del).
+Proof.
+  intros Hw. unfold scan_repair, WF. rewrite restore_indices_outs.
+  set (w2 := fold_left restore_missing _ (fold_left unspend _ w)).
+  assert (H2 : WF w2) by (apply fold_restore_wf; apply fold_unspend_wf; exact Hw).
+  destruct del; [|exact H2].
+  set (wa := fold_left unspend _ w2).
+  assert (Ha : WF wa) by (apply fold_unspend_wf; exact H2).
+  generalize (filter (fun o => status_eqb (r_status o) Unconfirmed) (w_outs w)).
+  intros l. revert Ha. generalize wa. clear.
+  induction l as [|o r IH]; intros w0 Hw0; cbn [fold_left]; [exact Hw0|].
+  apply IH. unfold WF. cbn [w_outs with_outs]. rewrite cancel_entry_outs. now apply nodup_del.
+Qed.
